@@ -27,6 +27,15 @@ Line-protocol front end of the C07 model (requests after the leading `C07` field
                           (lists joined by `;`, `-` = empty; a Get answer is nocode | notfound | nil |
                           host<i> | fn:<name>@<main|c<j>|setup> | int:<v>; a Spec is `~` where the
                           property demands nothing by itself)
+
+  data <d0> <dinv> <dinv> …   host DATA globals converted by copy, a history of RunCode invocations
+                          d0 = the Go data the VM is constructed with; a value is items/ctr, items =
+                          `_` or integers joined by `.`   dinv = give:ops, give = `_` (RunCode is not
+                          handed WithGlobals) or a value; ops = `_` or `a<int>` (data.append) / `d`
+                          (cfg["n"] decremented) joined by `.`: the updates the script performed
+  reply: ok <res> …       res = impl:spec:hostInput:dirtyVariant (values; what data/cfg hold when the
+                          invocation has ended on the reused VM / on a fresh VM constructed with
+                          the host's current data / vm.inputGlobals afterwards / with the dirty flag)
 -/
 namespace Risor.C07
 
@@ -164,7 +173,47 @@ def resFrom (s : St) (g : GSt) (k : Nat) : List LInv → List String
        (match specNames s k inv x.lay with | some ns => joinOr (ns.map showName) | none => "~")]
     line :: resFrom r.1 g' (k + 1) rest
 
+def parseInts (s : String) : Option (List Int) :=
+  if s = "_" then some [] else (s.splitOn ".").mapM String.toInt?
+
+def parseDVal (s : String) : Option DVal :=
+  match s.splitOn "/" with
+  | [i, c] => do
+    let items ← parseInts i
+    let ctr ← c.toInt?
+    pure { items, ctr }
+  | _ => none
+
+def parseDOp (s : String) : Option DOp :=
+  match s.toList with
+  | ['d'] => some .dec
+  | 'a' :: rest => (String.ofList rest).toInt?.map .app
+  | _ => none
+
+def parseDInv (s : String) : Option DInv :=
+  match s.splitOn ":" with
+  | [g, o] => do
+    let give ← (if g = "_" then some none else (parseDVal g).map some)
+    let ops ← (if o = "_" then some [] else (o.splitOn ".").mapM parseDOp)
+    pure { give, ops }
+  | _ => none
+
+def showDVal (d : DVal) : String :=
+  (if d.items.isEmpty then "_" else String.intercalate "." (d.items.map toString)) ++ "/" ++ toString d.ctr
+
+def dataRes (s sd : DSt) : List DInv → List String
+  | [] => []
+  | v :: rest =>
+    let r := dRunCode s v
+    let rd := dRunCodeDirty sd v
+    String.intercalate ":" [showDVal r.2, showDVal (dSpecAt s.input v), showDVal r.1.input, showDVal rd.2]
+      :: dataRes r.1 rd.1 rest
+
 def handle : List String → String
+  | "data" :: d0 :: invs =>
+    match parseDVal d0, invs.mapM parseDInv with
+    | some d, some h => String.intercalate "\t" ("ok" :: dataRes (dNew d) (dNew d) h)
+    | _, _ => "error\tbad-data-history"
   | "hist" :: invs =>
     match invs.mapM parseLInv with
     | some h => String.intercalate "\t" ("ok" :: resFrom (fresh 0) {} 0 h)
